@@ -61,6 +61,7 @@ func loadKnown(prop string) map[string]KnownFinding {
 type nativeOutcome struct {
 	Failed      []string `json:"failed_asserts"`
 	Panic       string   `json:"panic,omitempty"`
+	Stack       string   `json:"stack,omitempty"`
 	Diverged    string   `json:"diverged,omitempty"`
 	AssumeFalse bool     `json:"assume_false,omitempty"`
 	Obs         []ObsVal `json:"observations"`
@@ -250,7 +251,7 @@ func cmdCheck(args []string) int {
 	var samples []interface{}
 	distinct := 0
 	modelOnly := 0
-	replayDir := filepath.Join(verifHome, "replays", id)
+	replayDir := filepath.Join(outHome, "replays", id)
 	os.MkdirAll(replayDir, 0o755)
 
 	for _, r := range results {
@@ -499,8 +500,8 @@ func cmdCheck(args []string) int {
 			"exhaustive":                    false,
 		}}
 	eb, _ := json.MarshalIndent(ev, "", " ")
-	os.MkdirAll(filepath.Join(verifHome, "evidence"), 0o755)
-	os.WriteFile(filepath.Join(verifHome, "evidence", id+".json"), eb, 0o644)
+	os.MkdirAll(filepath.Join(outHome, "evidence"), 0o755)
+	os.WriteFile(filepath.Join(outHome, "evidence", id+".json"), eb, 0o644)
 	fmt.Printf("[%s %s] paths=%d forks=%d assertion-queries=%d validated-natively=%d violations=%d known=%d wall=%.1fs\n", id, tier, totalPaths, totalForks, totalAsserts, validated, len(seen), len(kids), time.Since(t0).Seconds())
 	if len(seen) > 0 {
 		return 1
@@ -529,6 +530,20 @@ func cmdReplay(args []string) int {
 	attempts := 1
 	if w.MapOrd {
 		attempts = 24
+	}
+	if n, _ := strconv.Atoi(os.Getenv("GOSYM_REPLAY_TIMES")); n > 0 {
+		// debugging aid: run the witness n times and print every outcome that is not clean
+		for a := 0; a < n; a++ {
+			o, err := rp.run(&w)
+			if err != nil {
+				fatalf(2, "%v", err)
+			}
+			if o.Panic != "" || o.Crashed != "" || o.Diverged != "" || len(o.Failed) > 0 {
+				ob, _ := json.MarshalIndent(o, "", " ")
+				fmt.Printf("run %d: %s\n", a, ob)
+			}
+		}
+		return 0
 	}
 	for a := 0; a < attempts; a++ {
 		o, err := rp.run(&w)
